@@ -349,11 +349,18 @@ def sample_tree(rng, block_size=4096, compress_meta=False, compress_data=False, 
     return fg
 
 
-def graph_image(edges, inums, n_files=0):
-    """directory graph image: node i is a directory with entries to `edges[i]` (any node, cycles allowed)"""
+def graph_image(edges, inums, n_files=0, ext=None, file_inums=None, file_ext=None):
+    """directory graph image: node i is a directory with entries to `edges[i]` (any node, cycles allowed; a negative
+    number -k-1 refers to file k).  `ext[i]`: store directory i as an extended directory inode (type 8) instead of a
+    basic one (type 1); `file_ext[k]` likewise for files; `file_inums[k]`: inode number stored in file k (may collide
+    with a directory's)."""
     fg = Forge(4096)
-    ds = [fg.add(Node(T_DIR, inum=inums[i])) for i in range(len(edges))]
-    fs = [fg.make_file(b"f%d" % i) for i in range(n_files)]
+    ext = ext or [False] * len(edges)
+    ds = [fg.add(Node(T_XDIR if ext[i] else T_DIR, inum=inums[i])) for i in range(len(edges))]
+    fs = []
+    for i in range(n_files):
+        kw = {"inum": file_inums[i]} if file_inums else {}
+        fs.append(fg.make_file(b"f%d" % i, ext=bool(file_ext and file_ext[i]), **kw))
     for i, kids in enumerate(edges):
         ds[i].entries = [(b"d%d_%d" % (k, j), ds[k]) if k >= 0 else (b"f%d_%d" % (-k - 1, j), fs[-k - 1]) for j, k in enumerate(kids)]
     fg.root = ds[0]
